@@ -912,6 +912,124 @@ func lockedEntry(stack []string, recv string, names []string) string {
 	return ""
 }
 
+// ---- part E ---------------------------------------------------------------
+
+// c16E: membership calls from several goroutines while the engine waits to retry a failed open (the retry loop gives
+// the lock up while it sleeps). Whatever the retry then installs, every accepted call must still have had its
+// effect: no player lost, none resurrected, bookkeeping of C03 intact.
+func c16E(c *h.Ctx) {
+	r := c.R
+	cfg := h.GenTable(r, h.GenOpts{MinSeats: 6, MaxSeats: 9, MinPlayers: 3, DeepOnly: true, Modes: []string{"ct", "cash"}, Rules: []string{"default"}})
+	cfg.Players = cfg.Players[:3]
+	s, err := h.NewSim(h.SimConfig{Setting: cfg.Setting(false), Interval: 0, LightTrace: true}, r.Int63())
+	if err != nil {
+		c.Inconclusive(err.Error())
+		return
+	}
+	for _, pl := range cfg.Players {
+		if err := s.Reserve(pl.ID, pl.Seat, pl.Chips); err != nil {
+			c.Inconclusive("reserve: " + err.Error())
+			return
+		}
+	}
+	s.Join(cfg.Players[0].ID) // only one seated-in player: the first open fails and the engine waits 3 s to retry
+	s.TE.StartTableGame()
+	e, ok := s.WaitFor(5*time.Second, func(e *h.Ev) bool { return e.Kind == h.EvSetup }, nil)
+	if !ok {
+		c.Inconclusive("no set-up")
+		return
+	}
+	s.SignalAll(h.SetupIDs(e.Setup))
+	if _, ok := s.WaitFor(5*time.Second, func(e *h.Ev) bool { return e.Kind == h.EvGateFire }, nil); !ok {
+		c.Inconclusive("gate did not fire")
+		return
+	}
+	time.Sleep(time.Duration(200+r.Intn(1500)) * time.Millisecond)
+	model := &c03Model{seats: cfg.Seats, seatOf: map[string]int{}, isIn: map[string]bool{}}
+	for _, pl := range cfg.Players {
+		model.seatOf[pl.ID] = pl.Seat
+	}
+	model.isIn[cfg.Players[0].ID] = true
+	free := []int{}
+	for seat := 0; seat < cfg.Seats; seat++ {
+		if !model.taken(seat) {
+			free = append(free, seat)
+		}
+	}
+	r.Shuffle(len(free), func(i, j int) { free[i], free[j] = free[j], free[i] })
+	type res struct {
+		kind, id string
+		seat     int
+		err      error
+	}
+	var mu sync.Mutex
+	var out []res
+	var wg sync.WaitGroup
+	start := make(chan struct{})
+	run := func(kind, id string, seat int, fn func() error) {
+		wg.Add(1)
+		go func() {
+			defer wg.Done()
+			<-start
+			err := fn()
+			mu.Lock()
+			out = append(out, res{kind, id, seat, err})
+			mu.Unlock()
+		}()
+	}
+	nNew := 1 + r.Intn(3)
+	if nNew > len(free) {
+		nNew = len(free)
+	}
+	for k := 0; k < nNew; k++ {
+		id, seat := fmt.Sprintf("late%d", k), free[k]
+		run("reserve", id, seat, func() error {
+			return s.TE.PlayerReserve(pt.JoinPlayer{PlayerID: id, RedeemChips: 500, Seat: seat})
+		})
+	}
+	leaver := cfg.Players[2].ID
+	if r.Intn(2) == 0 {
+		run("leave", leaver, -1, func() error { return s.TE.PlayersLeave([]string{leaver}) })
+	}
+	sitter := cfg.Players[1].ID
+	run("join", sitter, -1, func() error { return s.TE.PlayerJoin(sitter) })
+	close(start)
+	wg.Wait()
+	for _, x := range out {
+		if x.err != nil {
+			continue
+		}
+		switch x.kind {
+		case "reserve":
+			model.seatOf[x.id] = x.seat
+		case "leave":
+			delete(model.seatOf, x.id)
+			delete(model.isIn, x.id)
+		case "join":
+			model.isIn[x.id] = true
+		}
+	}
+	// the retry (at most 3.3 s away) opens the hand now that two players are seated in
+	opened := false
+	s.WaitFor(9*time.Second, func(e *h.Ev) bool {
+		opened = e.Kind == h.EvTable && e.T != nil && e.T.State.Status == pt.TableStateStatus_TableGameOpened
+		return opened
+	}, nil)
+	time.Sleep(2 * time.Millisecond)
+	w := map[string]interface{}{"cfg": cfg, "calls": fmt.Sprintf("%+v", out), "opened": opened, "trace": s.TraceTail(30)}
+	if sig, det := c03Consistent(s, model); sig != "" {
+		c.Violate("C16/membership-call-during-open-retry-undone/"+sig, "calls accepted while the engine waited to retry a failed open: "+det, w)
+		return
+	}
+	c.Feature("E:membership-calls-during-open-retry")
+	if opened {
+		c.Feature("E:retry-opened-the-hand")
+	}
+	c.Nontrivial()
+	c.FP("E", fmt.Sprintf("%+v", cfg), len(out))
+	c.Sample(map[string]interface{}{"part": "E", "calls_during_the_wait": len(out), "retry_opened_the_hand": opened})
+}
+
 func c16RaceClassify(blk string) string {
 	st := h.RaceAccessStacks(blk)
 	a, b := lockedEntry(st[0], "(*tableEngine)", teLocked), lockedEntry(st[1], "(*tableEngine)", teLocked)
@@ -946,7 +1064,7 @@ func init() {
 		Cases:         func(tier string) int { return map[string]int{"quick": 600, "thorough": 12000}[tier] },
 		MinNontrivial: func(tier string) int { return map[string]int{"quick": 300, "thorough": 6000}[tier] },
 		RequiredFeatures: func(string) []string {
-			return []string{"A:storm", "B:storm", "C:simultaneous-actions", "C:rapid-volley-before-publication", "D:batch-atomicity"}
+			return []string{"A:storm", "B:storm", "C:simultaneous-actions", "C:rapid-volley-before-publication", "D:batch-atomicity", "E:membership-calls-during-open-retry", "E:retry-opened-the-hand"}
 		},
 		CaseTimeout:  120e9,
 		Race:         true,
@@ -954,6 +1072,10 @@ func init() {
 		Run: func(c *h.Ctx) {
 			if c.Case%12 == 11 {
 				c16D(c)
+				return
+			}
+			if c.Case%24 == 5 {
+				c16E(c)
 				return
 			}
 			switch c.Case % 3 {
